@@ -14,7 +14,61 @@ pub struct C02;
 
 pub const BUDGETS: &[usize] = &[1, 2, 3, 4, 5, 6, 7, 8, 9, 10, 11, 12, 15, 20, 30];
 
+/// v2, directed: a non-integer (boolean) constant that depends on an address and LAGS one pass behind it, read by an
+/// item that stands before it; the address itself settles late because an instruction in front of it names a
+/// constant that is a later label:
+///     #d8 (kbool ? 0xff : 0x11) / kbool = tgt > K / lag kfwd / tgt: / kfwd = far / #addr N / far: / #d8 0xbb
+pub fn gen_lagging_constant(t: &mut Tape) -> (Program, ProgInfo) {
+    let mut isa = IsaGen { size_static: false, asserts: true }.gen(t);
+    let p = || E::Var("p0".into());
+    let lit = crate::gen::expr::lit_of;
+    let ops = || vec![PatOp { wrap: Wrap::None, op: POp::Param { name: "p0".into(), ty: PType::Untyped } }];
+    isa.blocks[0].rules.push(Rule {
+        mnemonic: "lag".into(),
+        ops: ops(),
+        prod: E::Block(vec![
+            E::Call("assert".into(), vec![E::Bin(BinOp::Lt, Box::new(p()), Box::new(lit(0x100)))]),
+            crate::gen::isa::concat_all(vec![crate::gen::isa::sized_lit(0x10, 8), E::SliceShort(Box::new(p()), Box::new(lit(8)))]),
+        ]),
+        size: 16,
+    });
+    isa.blocks[0].rules.push(Rule { mnemonic: "lag".into(), ops: ops(), prod: crate::gen::isa::concat_all(vec![crate::gen::isa::sized_lit(0x20, 8), E::SliceShort(Box::new(p()), Box::new(lit(16)))]), size: 24 });
+    let mut items: Vec<Item> = Vec::new();
+    let npre = t.draw(3) as u64;
+    let reader = Item::Data { width: Some(8), elems: vec![E::Tern(Box::new(E::Var("kbool".into())), Box::new(lit(0xff)), Box::new(lit(0x11)))] };
+    for k in 0..npre {
+        items.push(Item::Data { width: Some(8), elems: vec![lit(k)] });
+    }
+    // tgt lies at 1 + npre + 2 (short form) or + 3 (long form): the threshold separates the two
+    let short_at = 1 + npre + 2;
+    let (op, k) = match t.draw(3) {
+        0 => (BinOp::Gt, short_at),
+        1 => (BinOp::Ge, short_at + 1),
+        _ => (BinOp::Lt, short_at + 1),
+    };
+    let decl = Item::Const { dots: 0, name: "kbool".into(), e: E::Bin(op, Box::new(E::Var("tgt".into())), Box::new(lit(k))), noemit: false };
+    if t.chance(3, 4) {
+        items.push(reader);
+        items.push(decl);
+    } else {
+        items.push(decl);
+        items.push(reader);
+    }
+    let operand = if t.chance(3, 4) { "kfwd" } else { "far" };
+    items.push(Item::Instr(Instr { mnemonic: "lag".into(), ops: vec![InsOp { wrap: Wrap::None, op: IOp::Word(operand.into()) }] }));
+    items.push(Item::Label { dots: 0, name: "tgt".into() });
+    items.push(Item::Const { dots: 0, name: "kfwd".into(), e: E::Var("far".into()), noemit: false });
+    items.push(Item::Addr(lit(*t.pick(&[0x20u64, 0x40, 0x80, 0x180]))));
+    items.push(Item::Label { dots: 0, name: "far".into() });
+    items.push(Item::Data { width: Some(8), elems: vec![lit(0xbb)] });
+    let info = ProgInfo { n_instr: 1, symbol_operands: 1, forward_refs: true, ..Default::default() };
+    (Program { isa, items }, info)
+}
+
 pub fn gen_cascade(t: &mut Tape, max_items: usize) -> (Program, ProgInfo) {
+    if crate::engine::gen_version() >= 2 && t.chance(1, 16) {
+        return gen_lagging_constant(t);
+    }
     let isa = IsaGen { size_static: false, asserts: true }.gen(t);
     let shadow = t.chance(1, 5);
     let mut isa = isa;
